@@ -53,6 +53,8 @@ def is_atomic(o) -> bool:
         return True
     if isinstance(o, tuple):
         return all(is_atomic(x) for x in o)
+    if isinstance(o, np.ndarray) and not o.flags.writeable and o.base is None:
+        return True  # a read-only array that owns its data cannot be changed through either holder
     return False
 
 
@@ -67,6 +69,10 @@ def atomic_text(o) -> str:
         return "lock"
     if isinstance(o, tuple):
         return "tuple:(" + ",".join(atomic_text(x) for x in o) + ")"
+    import numpy as np
+
+    if isinstance(o, np.ndarray):
+        return opaque_text(o)
     return f"{type(o).__name__}:{o!r}"
 
 
